@@ -6,6 +6,7 @@ package valid
 import (
 	"fmt"
 	"math/rand"
+	"os"
 	"sync"
 	"testing"
 	"time"
@@ -54,5 +55,82 @@ func TestVerifReplayC10(t *testing.T) {
 			fmt.Printf("REPLAY-CONFIRMED at quiescence Len() = %d on capacity %d after concurrent operation streams (round %d)\n", n, cap, round)
 			return
 		}
+	}
+}
+
+// TestVerifBoundedC10: the concurrent stress as a standing bounded stand-in (go test -race).
+func TestVerifBoundedC10(t *testing.T) {
+	if os.Getenv("VERIF_BOUNDED") == "" {
+		t.Skip("bounded stand-in: run by govc")
+	}
+	dur := 3 * time.Second
+	if os.Getenv("VERIF_TIER") == "thorough" {
+		dur = 20 * time.Second
+	}
+	deadline := time.Now().Add(dur)
+	viol := 0
+	rounds := 0
+	var mu sync.Mutex
+	for round := 0; time.Now().Before(deadline) && viol == 0; round++ {
+		rounds++
+		cap := round % 5
+		l := NewLRU(cap)
+		var wg sync.WaitGroup
+		start := make(chan struct{})
+		for g := 0; g < 8; g++ {
+			wg.Add(1)
+			go func(g int) {
+				defer wg.Done()
+				defer func() {
+					if r := recover(); r != nil {
+						mu.Lock()
+						viol++
+						mu.Unlock()
+						fmt.Printf("BOUNDED-VIOLATION name=C10.streams panic under concurrent use (cap=%d): %v\n", cap, r)
+					}
+				}()
+				rng := rand.New(rand.NewSource(int64(round*100 + g)))
+				<-start
+				for i := 0; i < 300; i++ {
+					k := rng.Intn(3 + cap)
+					switch rng.Intn(5) {
+					case 0, 1:
+						l.Store(k, i)
+					case 2:
+						if v, ok := l.Load(k); ok && v == nil {
+							fmt.Printf("BOUNDED-VIOLATION name=C10.streams Load(%d) hit with a nil value\n", k)
+						}
+					case 3:
+						l.Delete(k)
+					case 4:
+						if rng.Intn(8) == 0 {
+							_ = l.Dump()
+						} else if n := l.Len(); n < 0 || n > cap {
+							mu.Lock()
+							viol++
+							mu.Unlock()
+							fmt.Printf("BOUNDED-VIOLATION name=C10.streams Len() = %d on capacity %d during concurrent operation streams\n", n, cap)
+						}
+					}
+				}
+			}(g)
+		}
+		close(start)
+		done := make(chan struct{})
+		go func() { wg.Wait(); close(done) }()
+		select {
+		case <-done:
+		case <-time.After(20 * time.Second):
+			fmt.Printf("BOUNDED-VIOLATION name=C10.streams the operation streams did not finish within 20s (deadlock) on capacity %d\n", cap)
+			t.Fatalf("deadlock")
+		}
+		if n := l.Len(); n < 0 || n > cap {
+			viol++
+			fmt.Printf("BOUNDED-VIOLATION name=C10.streams at quiescence Len() = %d on capacity %d (round %d)\n", n, cap, round)
+		}
+	}
+	fmt.Printf("BOUNDED name=C10.streams cases=%d bound=%d rounds of 8 goroutines x 300 random Store/Load/Delete/Len/Dump on one cache (capacities 0..4, key sets larger than the capacity) under the race detector; no panic, no deadlock, Len within [0, capacity] during and after\n", rounds*8*300, rounds)
+	if viol > 0 {
+		t.Fatalf("%d violations", viol)
 	}
 }
